@@ -51,7 +51,16 @@ extern "C" void harness(void)
   U::SymAut<NC> C; C.draw();
 #endif
   const unsigned ord = vs_range(NORD);
+#if LAW == 5
+  // register the universe symbols (name = letter, with its rank) in the alphabet first and build the twin with whatever
+  // numbers the alphabet handed out: which numbers those are (today 0, 1, .. in registration order) is the alphabet's business
+  ExplicitTreeAut a; unsigned symNum[U::NSYM];
+  { ExplicitTreeAut::AbstractAlphabet::FwdTranslatorPtr reg = a.GetAlphabet()->GetSymbolTransl();
+    for (unsigned k = 0; k < U::NSYM; ++k) symNum[k] = (unsigned)(*reg)(ExplicitTreeAut::StringRank(std::string(1, (char)('a' + k)), U::RANK[k])); }
+  TW::build<NA>(A, a, PERM, ord, NORD, 0, 1, symNum);
+#else
   ExplicitTreeAut a; TW::build<NA>(A, a, PERM, ord, NORD);
+#endif
 #if LAW == 1 || LAW == 2 || LAW == 3
   ExplicitTreeAut b; TW::build<NB>(B, b, 0, ord, NORD);
 #endif
@@ -113,10 +122,8 @@ extern "C" void harness(void)
   vs_observe(r1); vs_observe(r2);
 #endif
 #else
-  // register the universe symbols (name = letter, with its rank) in the automaton's alphabet; the twin was built with
-  // symbol number k for universe symbol k, which is what registration in index order assigns
-  { ExplicitTreeAut::AbstractAlphabet::FwdTranslatorPtr reg = a.GetAlphabet()->GetSymbolTransl();
-    for (unsigned k = 0; k < U::NSYM; ++k) { unsigned long n = (*reg)(ExplicitTreeAut::StringRank(std::string(1, (char)('a' + k)), U::RANK[k])); CHECK(n == k, 50); } }
+  // (id 50 used to demand that the alphabet numbers the symbols 0, 1, .. in registration order - an implementation detail of
+  // OnTheFlyAlphabet; the twin is now built with the numbers the alphabet returned, see above)
   AutBase::StateDict dict;
   for (unsigned s = 0; s < NA; ++s) dict.insert(std::make_pair(std::string(1, (char)('p' + s)), (AutBase::StateType)TW::Perms<NA>::at(PERM, s)));
   AutBase::AutDescription desc = a.DumpToAutDesc(dict);
